@@ -78,7 +78,7 @@ func fnVariants(f *Fn) []*Fn {
 		g := clone()
 		g.P = append(g.P[:i], g.P[i+1:]...)
 		out = append(out, g)
-		if f.P[i].isObj() {
+		if f.P[i].isObj() && f.P[i].Decl == "" {
 			// drop one field / unwrap a single plain field
 			for j := range f.P[i].Obj {
 				g := clone()
